@@ -964,6 +964,104 @@ def comprehensions_of_collect_loops(fnode):
     return changed
 
 
+def configuration_attributes(repo):
+    """names of attributes that are plain configuration: stored on `self` in an `__init__` of the repository and stored nowhere else (no
+    method re-binds them, no setattr / delattr anywhere), and no method, property or class-level name of that name exists"""
+    cached = getattr(repo, "_config_attrs", None)
+    if cached is not None:
+        return cached
+    in_init, elsewhere, defs = set(), set(), set()
+    dynamic = False
+    for f in repo.funcs.values():
+        if f.cls:
+            defs.add(f.name)
+        for x in ast.walk(f.node):
+            if isinstance(x, ast.Attribute) and isinstance(x.ctx, (ast.Store, ast.Del)):
+                (in_init if f.name == "__init__" and isinstance(x.value, ast.Name) and x.value.id == "self" else elsewhere).add(x.attr)
+            if isinstance(x, ast.Call) and isinstance(x.func, ast.Name) and x.func.id in ("setattr", "delattr"):
+                dynamic = True
+            if isinstance(x, ast.Attribute) and x.attr == "__dict__":
+                dynamic = True
+    for cn in repo.classes.values():
+        for m in getattr(cn, "body", []):
+            if isinstance(m, (ast.Assign, ast.AnnAssign)):
+                for t in (m.targets if isinstance(m, ast.Assign) else [m.target]):
+                    if isinstance(t, ast.Name):
+                        defs.add(t.id)
+    repo._config_attrs = set() if dynamic and False else (in_init - elsewhere - defs)
+    return repo._config_attrs
+
+
+def aliases_of_configuration(repo, f):
+    """x = self.attr   with attr plain configuration (see configuration_attributes) and x a local bound once, never a parameter, not captured
+    by a nested function   ->   self.attr wherever x is read.  The alias names the same object for the whole call; the inverse of
+    `read the option once into a local`."""
+    fnode = f.node
+    if not f.cls or f.name == "__init__" or not fnode.args.args or fnode.args.args[0].arg != "self":
+        return False
+    config = configuration_attributes(repo)
+    stores = {}
+    for x in ast.walk(fnode):
+        if isinstance(x, ast.Name) and isinstance(x.ctx, (ast.Store, ast.Del)):
+            stores[x.id] = stores.get(x.id, 0) + 1
+    if stores.get("self"):
+        return False
+    a = fnode.args
+    params = {p.arg for p in a.posonlyargs + a.args + a.kwonlyargs} | ({a.vararg.arg} if a.vararg else set()) | ({a.kwarg.arg} if a.kwarg else set())
+    nested = {x.id for n in ast.walk(fnode) if n is not fnode and isinstance(n, (ast.FunctionDef, ast.AsyncFunctionDef, ast.Lambda)) for x in ast.walk(n) if isinstance(x, ast.Name)}
+    alias = {}
+    for st in walk_own_stmts(fnode):
+        if isinstance(st, ast.Assign) and len(st.targets) == 1 and isinstance(st.targets[0], ast.Name) and isinstance(st.value, ast.Attribute) \
+                and isinstance(st.value.value, ast.Name) and st.value.value.id == "self" and st.value.attr in config:
+            x = st.targets[0].id
+            if stores.get(x) == 1 and x not in params and x not in nested:
+                alias[x] = st
+    if not alias:
+        return False
+
+    class R(ast.NodeTransformer):
+        def visit_Name(self, n):
+            if n.id in alias and isinstance(n.ctx, ast.Load):
+                return ast.copy_location(copy.deepcopy(alias[n.id].value), n)
+            return n
+
+    def strip(stmts):
+        out = []
+        for st in stmts:
+            if any(st is d for d in alias.values()):
+                continue
+            for fld in ("body", "orelse", "finalbody"):
+                sub = getattr(st, fld, None)
+                if isinstance(sub, list) and sub and isinstance(sub[0], ast.stmt) and not isinstance(st, (ast.FunctionDef, ast.AsyncFunctionDef, ast.ClassDef)):
+                    setattr(st, fld, strip(sub) or [ast.Pass()])
+            if isinstance(st, ast.Try):
+                for h in st.handlers:
+                    h.body = strip(h.body) or [ast.Pass()]
+            out.append(st)
+        return out
+    fnode.body = strip(fnode.body) or [ast.Pass()]
+    f.node = R().visit(fnode)
+    ast.fix_missing_locations(f.node)
+    return True
+
+
+def walk_own_stmts(fnode):
+    """the statements of a function, nested blocks included, nested function / class bodies excluded"""
+    todo = list(fnode.body)
+    while todo:
+        st = todo.pop(0)
+        yield st
+        if isinstance(st, (ast.FunctionDef, ast.AsyncFunctionDef, ast.ClassDef)):
+            continue
+        for fld in ("body", "orelse", "finalbody"):
+            sub = getattr(st, fld, None)
+            if isinstance(sub, list) and sub and isinstance(sub[0], ast.stmt):
+                todo += sub
+        if isinstance(st, ast.Try):
+            for h in st.handlers:
+                todo += h.body
+
+
 def tests_of_temporaries(fnode):
     """t = E; if t: ..   (or `if not t:`)   with t a plain local bound once and read once - in that test -   ->   if E: ..
     (the inverse of `give the condition a name`; same conditions as for arguments)"""
@@ -1249,6 +1347,7 @@ def apply_synonyms(repo):
     for f in repo.funcs.values():
         before = ast.dump(f.node)
         f.node = _MatchToIf().visit(f.node)          # first: the passes below walk if / else arms, not match cases
+        aliases_of_configuration(repo, f)
         tests_of_temporaries(f.node)
         arguments_of_temporaries(f.node)
         return_of_temporary(f.node)
